@@ -137,21 +137,58 @@ func TestVerifC33Table(t *testing.T) {
 
 var c33EpochRe = regexp.MustCompile(`^[0-9]+:`)
 
-// digit runs are kept <= 9 so that the reference can use integer values
-func c33ClampDigits(b []byte) []byte {
-	run := 0
-	for i := range b {
-		if b[i] >= '0' && b[i] <= '9' {
-			run++
-			if run > 9 {
-				b[i] = '.'
-				run = 0
+// (digit runs are NOT clamped: the reference compares digit strings at arbitrary length)
+func c33ClampDigits(b []byte) []byte { return b }
+
+// boundary numbers for the numeric clause: 2^32+-1, 2^63+-1, 2^64-1, 2^64, 2^64+1, 10^19, 10^20, and
+// 20..24-digit numbers differing only in the last digit
+var c33BigNums = []string{
+	"4294967295", "4294967296", "4294967297",
+	"9223372036854775807", "9223372036854775808", "9223372036854775809",
+	"18446744073709551615", "18446744073709551616", "18446744073709551617",
+	"10000000000000000000", "100000000000000000000",
+	"20000000000000000000", "30000000000000000000",
+	"20240101060708", "20240101060709",
+	"99999999999999999999", "100000000000000000001",
+	"123456789012345678901234", "123456789012345678901235",
+}
+
+// c33Directed: pairs of versions that carry two boundary numbers at the same fragment position after an
+// identical prefix (upstream and revision parts, with and without leading zeros, date-stamp-like versions).
+func c33Directed() [][2]string {
+	ctxs := []func(n string) string{
+		func(n string) string { return n },
+		func(n string) string { return "1." + n },
+		func(n string) string { return "2.63+git" + n },
+		func(n string) string { return "1-" + n },
+		func(n string) string { return "1.0-0ubuntu" + n },
+		func(n string) string { return n + "-1" },
+	}
+	var out [][2]string
+	for ci, cf := range ctxs {
+		for i, x := range c33BigNums {
+			for j, y := range c33BigNums {
+				if ci > 2 && (i-j > 3 || j-i > 3) { // all pairs in the first contexts, neighbours in the others
+					continue
+				}
+				a, b := cf(x), cf(y)
+				if len(a) <= 32 && len(b) <= 32 {
+					out = append(out, [2]string{a, b})
+				}
+				// leading zeros on one side must not matter
+				if (i+j)%5 == 0 {
+					if za := cf("00" + x); len(za) <= 32 && len(b) <= 32 {
+						out = append(out, [2]string{za, b})
+					}
+				}
 			}
-		} else {
-			run = 0
 		}
 	}
-	return b
+	// the seeded-change examples and the repo's own guard
+	out = append(out, [2]string{"30000000000000000000-1", "20000000000000000000-2"},
+		[2]string{"20000000000000000000", "020000000000000000000"},
+		[2]string{"2.63+git20240101060708", "2.63+git20240101060709"})
+	return out
 }
 
 const c33Wide = "0123456789abcxyzABZ.+~-:"
@@ -177,10 +214,30 @@ func c33RandVersion(r interface{ Intn(int) int }) string {
 			b[n-1] = e[r.Intn(len(e))]
 		}
 	}
+	if r.Intn(100) < 25 { // a long digit run: 1..24 digits or a boundary number, optionally zero-padded
+		var run string
+		if r.Intn(2) == 0 {
+			run = c33BigNums[r.Intn(len(c33BigNums))]
+		} else {
+			d := make([]byte, 1+r.Intn(24))
+			for i := range d {
+				d[i] = byte('0' + r.Intn(10))
+			}
+			run = string(d)
+		}
+		if r.Intn(4) == 0 {
+			run = "0" + run
+		}
+		pre := []string{"", "1.", "2.63+git", "1-", "a"}[r.Intn(5)]
+		b = []byte(pre + run)
+		if len(b) > 32 {
+			b = b[:32]
+		}
+	}
 	if r.Intn(100) < 4 {
 		b = append([]byte("1:"), b...)
 	}
-	return string(c33ClampDigits(b))
+	return string(b)
 }
 
 func c33Mutate(r interface{ Intn(int) int }, s string) string {
@@ -212,6 +269,9 @@ func c33Mutate(r interface{ Intn(int) int }, s string) string {
 				b = b[:p]
 			}
 		}
+		if r.Intn(4) == 0 && len(b) > 0 && b[len(b)-1] >= '0' && b[len(b)-1] <= '9' { // differ only in the last digit
+			b[len(b)-1] = byte('0' + (int(b[len(b)-1]-'0')+1+r.Intn(2))%10)
+		}
 	}
 	return string(c33ClampDigits(b))
 }
@@ -223,13 +283,18 @@ func TestVerifC33Random(t *testing.T) {
 	defer em.close()
 	r := seededRand()
 	n := envInt("VERIF_N", 1000)
-	for i := 1; i <= n; i++ {
-		a := c33RandVersion(r)
-		var b string
-		if r.Intn(100) < 65 {
-			b = c33Mutate(r, a)
+	directed := c33Directed()
+	for i := 1; i <= n+len(directed); i++ {
+		var a, b string
+		if i <= len(directed) {
+			a, b = directed[i-1][0], directed[i-1][1]
 		} else {
-			b = c33RandVersion(r)
+			a = c33RandVersion(r)
+			if r.Intn(100) < 65 {
+				b = c33Mutate(r, a)
+			} else {
+				b = c33RandVersion(r)
+			}
 		}
 		if r.Intn(2) == 0 {
 			a, b = b, a
@@ -249,6 +314,9 @@ func TestVerifC33Laws(t *testing.T) {
 	var S []string
 	for i := 1; i <= d.n(); i++ {
 		S = append(S, d.str(i))
+	}
+	for _, x := range c33BigNums {
+		S = append(S, x, "0"+x, "2.63+git"+x, "1-"+x)
 	}
 	r := seededRand()
 	for i := envInt("VERIF_NRAND", 100); i > 0; i-- {
